@@ -49,7 +49,8 @@ import (
 )
 
 type vClaims struct {
-	Jti *bool    `json:"jti"`
+	Jti  *bool   `json:"jti"`
+	JtiS *string `json:"jtis,omitempty"` // hex of the jti as the middleware reads it (a non-string jti is "")
 	Iat *int64   `json:"iat"`
 	Nbf *int64   `json:"nbf"`
 	Exp *int64   `json:"exp"`
@@ -65,9 +66,15 @@ func vClaimsOf(tok jwt.Token) vClaims {
 	}
 	has := func(k string) bool { _, ok := tok.Get(k); return ok }
 	if has(jwt.JwtIDKey) {
-		_, err := uuid.Parse(tokenJTI(tok))
+		js := ""
+		if v, found := tok.Get(jwt.JwtIDKey); found {
+			js, _ = v.(string)
+		}
+		_, err := uuid.Parse(js)
 		ok := err == nil
 		c.Jti = &ok
+		jh := hex.EncodeToString([]byte(js))
+		c.JtiS = &jh
 	}
 	tm := func(k string, v time.Time) *int64 {
 		if !has(k) {
@@ -432,6 +439,27 @@ func TestVerifC04Tok(t *testing.T) {
 				{"jti-uuid-urn", "valid", func(c map[string]interface{}) { c["jti"] = "urn:uuid:" + uuid.NewString() }},
 				{"jti-uuid-nodash", "valid", func(c map[string]interface{}) { c["jti"] = strings.ReplaceAll(uuid.NewString(), "-", "") }},
 				{"jti-uuid-braces", "valid", func(c map[string]interface{}) { c["jti"] = "{" + uuid.NewString() + "}" }},
+				{"jti-uuid-upper", "valid", func(c map[string]interface{}) { c["jti"] = strings.ToUpper(uuid.NewString()) }},
+				{"jti-uuid-urn-upper", "valid", func(c map[string]interface{}) { c["jti"] = "URN:UUID:" + uuid.NewString() }},
+				// text that merely CONTAINS a UUID is not a UUID
+				{"jti-prefix-uuid", "jti-not-uuid", func(c map[string]interface{}) { c["jti"] = "batch-2024-" + uuid.NewString() }},
+				{"jti-uuid-suffix", "jti-not-uuid", func(c map[string]interface{}) { c["jti"] = uuid.NewString() + "-retry-17" }},
+				{"jti-uuid-suffix-9", "jti-not-uuid", func(c map[string]interface{}) { c["jti"] = uuid.NewString() + "-retry-17"[:9] }},
+				{"jti-uuid-suffix-2", "jti-not-uuid", func(c map[string]interface{}) { c["jti"] = uuid.NewString() + "-1" }},
+				{"jti-prefix-2-uuid", "jti-not-uuid", func(c map[string]interface{}) { c["jti"] = "id" + uuid.NewString() }},
+				{"jti-prefix-9-uuid", "jti-not-uuid", func(c map[string]interface{}) { c["jti"] = "urn-uuid:" + uuid.NewString() }},
+				{"jti-uuid-doubled", "jti-not-uuid", func(c map[string]interface{}) { c["jti"] = uuid.NewString() + uuid.NewString() }},
+				{"jti-uuid-in-text", "jti-not-uuid", func(c map[string]interface{}) { c["jti"] = "alice' issued to root by " + uuid.NewString() + " --" }},
+				{"jti-uuid-newline-uuid", "jti-not-uuid", func(c map[string]interface{}) { c["jti"] = uuid.NewString() + "\n" + uuid.NewString() }},
+				{"jti-urn-braces", "jti-not-uuid", func(c map[string]interface{}) { c["jti"] = "urn:uuid:{" + uuid.NewString() + "}" }},
+				{"jti-braces-nodash", "jti-not-uuid", func(c map[string]interface{}) { c["jti"] = "{" + strings.ReplaceAll(uuid.NewString(), "-", "") + "}" }},
+				{"jti-uuid-short", "jti-not-uuid", func(c map[string]interface{}) { c["jti"] = uuid.NewString()[:35] }},
+				{"jti-uuid-nonhex", "jti-not-uuid", func(c map[string]interface{}) { u := uuid.NewString(); c["jti"] = "g" + u[1:] }},
+				{"jti-uuid-dash-moved", "jti-not-uuid", func(c map[string]interface{}) { u := uuid.NewString(); c["jti"] = u[:7] + "-" + u[7:8] + u[9:] }},
+				{"jti-uuid-space-padded", "jti-not-uuid", func(c map[string]interface{}) { c["jti"] = " " + uuid.NewString() }},
+				{"jti-array", "jti-not-uuid", func(c map[string]interface{}) { c["jti"] = []string{uuid.NewString()} }},
+				// google/uuid v1.6.0 does not look at the first and last byte of the 38-byte form: no demand either way
+				{"jti-uuid-38-any-ends", "jti-38-unchecked-ends", func(c map[string]interface{}) { c["jti"] = "x" + uuid.NewString() + "y" }},
 				{"times-fractional", "valid", func(c map[string]interface{}) { c["iat"] = float64(nowU) - 60.5; c["nbf"] = float64(nowU) - 60.25 }},
 				{"times-as-strings", "valid", func(c map[string]interface{}) { c["exp"] = strconv.FormatInt(nowU+3600, 10) }},
 				{"extra-claims", "valid", func(c map[string]interface{}) { c["admin"] = true; c["scope"] = "all" }},
@@ -571,6 +599,38 @@ func TestVerifC04Tok(t *testing.T) {
 		present("B", 2)
 	}
 
+	// --- the jti grammar: the real uuid.Parse against the model's uuidParse on strings built around UUIDs
+	if len(only) == 0 {
+		hexd := "0123456789abcdefABCDEF"
+		junk := []string{"", "x", "-", "{", "}", "id", "{}", "-1", "urn:uuid:", "URN:UUID:", "Urn:Uuid:", "urn-uuid:", "urn:uuid", "batch-", "-retry-17", " ", "\n", "\x00", "\u212a", "urn:uuid:{", "ſ"}
+		for i := 0; i < 400; i++ {
+			u := uuid.NewString()
+			switch r.Intn(6) {
+			case 0:
+				u = strings.ToUpper(u)
+			case 1:
+				u = strings.ReplaceAll(u, "-", "")
+			case 2: // one byte changed
+				b := []byte(u)
+				b[r.Intn(len(b))] = "-gG:{} zZ0fF"[r.Intn(12)]
+				u = string(b)
+			case 3: // one byte removed / added
+				j := r.Intn(len(u))
+				if r.Intn(2) == 0 {
+					u = u[:j] + u[j+1:]
+				} else {
+					u = u[:j] + string(hexd[r.Intn(len(hexd))]) + u[j:]
+				}
+			}
+			s := junk[r.Intn(len(junk))] + u + junk[r.Intn(len(junk))]
+			if r.Intn(8) == 0 {
+				s += uuid.NewString()
+			}
+			_, err := uuid.Parse(s)
+			out.emit(map[string]interface{}{"op": "uuid", "s": hex.EncodeToString([]byte(s)), "show": strconv.QuoteToASCII(s)}, fmt.Sprintf("%v", err == nil))
+		}
+	}
+
 	// --- hand-edited authorized_keys files: comments, blank lines, a weak RSA key, a key without user name, commented-out keys
 	// (plain, after blanks/tabs, after a UTF-8 BOM / NBSP / a word, in CRLF files), inline comments, options, user names with
 	// spaces, the same key twice. Which lines become authorised keys (= the model's parse of the same bytes), and who gets in.
@@ -587,6 +647,8 @@ func TestVerifC04Tok(t *testing.T) {
 		}
 		a, b, c := keys[0], keys[1], keys[2]
 		weak, nocomment, ghost, opt := vNewKey("rsa1024", "weak@verif"), vNewKey("ed", "nobody@verif"), vNewKey("ed", "ghost@verif"), vNewKey("p256", "opt@verif")
+		// RSA moduli just below / above the 2048-bit rule whose length is NOT a whole number of bytes (Size()*8 rounds them up)
+		w2047, w2041, s2049 := vNewKey("rsa2047", "w2047@verif"), vNewKey("rsa2041", "w2041@verif"), vNewKey("rsa2049", "s2049@verif")
 		hAlice := holder{a, "alice@verif", "valid", "alice@verif"}
 		hGhost := holder{ghost, "ghost@verif", "key-commented-out", ""}
 		const bom = "\xef\xbb\xbf"
@@ -600,6 +662,9 @@ func TestVerifC04Tok(t *testing.T) {
 				`no-port-forwarding,command="/bin/true" ` + ak(opt, "opt@verif")}, "\n") + "\n",
 				[]holder{hAlice, {b, "bob@verif", "valid", "bob@verif"}, {weak, "weak@verif", "key-weak-rsa", ""}, {nocomment, "nobody@verif", "key-no-comment", ""},
 					hGhost, {c, "carol with spaces", "valid", "carol with spaces"}, {a, "alice-dup@verif", "dup-key-second-name", "alice@verif"}, {opt, "opt@verif", "valid", "opt@verif"}}},
+			{"rsa-thresholds", strings.Join([]string{ak(w2047, "w2047@verif"), ak(a, "alice@verif"), ak(w2041, "w2041@verif"), ak(s2049, "s2049@verif"), ak(c, "carol@verif")}, "\n") + "\n",
+				[]holder{hAlice, {w2047, "w2047@verif", "key-weak-rsa", ""}, {w2041, "w2041@verif", "key-weak-rsa", ""}, {s2049, "s2049@verif", "valid", "s2049@verif"},
+					{c, "carol@verif", "valid", "carol@verif"}}},
 			{"commented-variants", strings.Join([]string{ak(a, "alice@verif"), "\t#" + ak(ghost, "ghost@verif"), "   #   " + ak(ghost, "ghost@verif"),
 				"##" + ak(ghost, "ghost@verif"), "# " + ak(ghost, "ghost@verif") + " # twice"}, "\n"), []holder{hAlice, hGhost}},
 			{"bom-commented-key-first", bom + "#" + ak(ghost, "ghost@verif") + "\n" + ak(a, "alice@verif") + "\n", []holder{hAlice, hGhost}},
@@ -701,8 +766,13 @@ func TestVerifC04Tok(t *testing.T) {
 						Scheme  string `json:"scheme"`
 						NFields int    `json:"nfields"`
 						CredLen int    `json:"credlen"`
+						KBits   int    `json:"kbits,omitempty"` // bit length of the signing key's RSA modulus (the real key)
 					}
-					out.emit(long{vTokOp: op, Scheme: "Bearer", NFields: 2, CredLen: len(tok)}, res)
+					kbits := 0
+					if rk, ok := k.pub.(*rsa.PublicKey); ok {
+						kbits = rk.N.BitLen()
+					}
+					out.emit(long{vTokOp: op, Scheme: "Bearer", NFields: 2, CredLen: len(tok), KBits: kbits}, res)
 				}
 			}
 		}
